@@ -119,8 +119,10 @@ int main(int argc, char **argv)
 		}
 		cells_done++;
 		std::set<std::string> distinct;
+		double tlast = now();
 		auto judge = [&](const Tag &tag, const std::string &pos, const std::string &mname, const std::string &cls, Expect ex, RunOut o, const std::string &shown) {
 			T.runs++;
+			if (getenv("C5_PROF")) { double t1 = now(); if (t1 - tlast > 0.03) fprintf(stderr, "slow %.3fs %s %s %s\n", t1 - tlast, caseid.c_str(), pos.c_str(), mname.c_str()); tlast = t1; }
 			// symmetric protocols (coin flip): the party that *receives* the mutated line is the one that must refuse
 			if (c->symmetric && pos.substr(0, 3) == "vp.") o.accept = o.p_ok, o.v_other = o.p_other;
 			bool fresh = distinct.insert(pos + "\x01" + shown).second;
